@@ -150,6 +150,9 @@ def generate(tier):
     # functions at the edge of the subset: refuse, or emit code with the function's value
     for untr, nvars, free in it.product(range(2, 2 + len(F.EDGE_FNS)), slots["nvars"], slots["free"]):
         shapes.append({**base, "untr": untr, "nvars": nvars, "derived": "none", "free": free})
+    # the assignment-defined parameter itself as a free input
+    for nvars, coef, derived, ct in it.product(slots["nvars"], ("one", "pcomp"), ("none", "chain", "ratedep"), ("none", "cond")):
+        shapes.append({**base, "untr": 0, "ia": 1, "free": 3, "nvars": nvars, "coef": coef, "derived": derived, "ct": ct})
     # numeric coefficients of every kind (the quick product above carries only 1, 2 and 0.5)
     for coef, nvars, untouched, derived, free in it.product(("neg", "irr", "tiny", "third", "zero", "czero", "pname-dxdt"), (1, 2), ("no", "first"), ("none", "chain"), slots["free"]):
         sh = {**base, "untr": 0, "coef": coef, "nvars": nvars, "untouched": untouched, "derived": derived, "free": free}
@@ -167,7 +170,8 @@ def prepare(case):
     from mxlpy.meta import generate_model_code_jl, generate_model_code_py, generate_model_code_rs, generate_model_code_ts
 
     gens = {"py": generate_model_code_py, "ts": generate_model_code_ts, "rs": generate_model_code_rs, "jl": generate_model_code_jl}
-    free = {0: None, 1: ["k1"], 2: ["kc", "k2"]}[case["free"]]  # 2: the coefficient's own parameter is an input
+    # 2: the coefficient's own parameter is an input; 3: the assignment-defined parameter q itself is an input
+    free = {0: None, 1: ["k1"], 2: ["kc", "k2"], 3: ["q", "k2"]}[case["free"]]
     out = {"ok": True, "cls": "prepared", "nontrivial": False, "symptom": None, "detail": "", "gen": {}}
     m0 = build_model(case)
     var_names = m0.get_variable_names()
